@@ -781,11 +781,22 @@ evaluate() const {
     case '/':
       if (r1._type == RT_real || r2._type == RT_real) {
         return Result(r1.as_real() / r2.as_real());
+      } else if (r2.as_integer() == 0) {
+        // Division by zero has no value.
+        return Result();
+      } else if (r2.as_integer() == -1) {
+        // Avoids the trap on INT_MIN / -1.
+        return Result((int)(0u - (unsigned int)r1.as_integer()));
       } else {
         return Result(r1.as_integer() / r2.as_integer());
       }
 
     case '%':
+      if (r2.as_integer() == 0) {
+        return Result();
+      } else if (r2.as_integer() == -1) {
+        return Result(0);
+      }
       return Result(r1.as_integer() % r2.as_integer());
 
     case '+':
@@ -807,6 +818,9 @@ evaluate() const {
 
     case '&':
       return Result(r1.as_integer() & r2.as_integer());
+
+    case '^':
+      return Result(r1.as_integer() ^ r2.as_integer());
 
     case OROR:
       if (r1.as_boolean()) {
@@ -1211,6 +1225,7 @@ determine_type() const {
     case '%':
     case '|':
     case '&':
+    case '^':
     case LSHIFT:
     case RSHIFT:
       return int_type;
